@@ -53,6 +53,21 @@ def install(it, heap=None):
         eq = z3.And([bv(u, 8) == bv(v, 8) for u, v in zip(x, y)])
         return z3.If(eq, z3.BitVecVal(0, 32), z3.BitVecVal(1, 32))       # only (in)equality is observed by the callers encoded here
     h['memcmp'] = memcmp; h['bcmp'] = memcmp
+    def cmp_bytes(p, n1, q_, n2):
+        """0 iff the two byte ranges are equal (length and content); otherwise a non-zero value of unspecified sign (callers encoded here test == 0 / != 0)"""
+        if not (is_c(n1) and is_c(n2)): raise Exception('std::string::compare with symbolic lengths')
+        if n1 != n2: return (n1 - n2) & 0xffffffff
+        return memcmp(None, [p, q_, n1])
+    def compare_pos_n_s_n(it_, a):          # compare(size_type pos, size_type n, const char* s, size_type n2)
+        sp, pos, n, sptr, n2 = a; size = mem.load(Ptr(sp.obj, sp.off + 8), 8)
+        if not (is_c(size) and is_c(pos) and is_c(n)): raise Exception('std::string::compare with symbolic position/length')
+        if pos > size: raise Thrown('_ZTISt12out_of_range')
+        rlen = min(n, size - pos); d = mem.load(sp, 8)
+        return cmp_bytes(Ptr(d.obj, d.off + pos), rlen, sptr, n2)
+    def compare_str(it_, a):
+        sp, other = a; n1 = mem.load(Ptr(sp.obj, sp.off + 8), 8); n2 = mem.load(Ptr(other.obj, other.off + 8), 8)
+        return cmp_bytes(mem.load(sp, 8), n1, mem.load(other, 8), n2)
+    h[KS + '7compareEmmPKcm'] = compare_pos_n_s_n; h[KS + '7compareERKS4_'] = compare_str
     h['_ZSt9terminatev'] = lambda it_, a: (_ for _ in ()).throw(Exception('std::terminate reached'))
     h['__cxa_pure_virtual'] = lambda it_, a: (_ for _ in ()).throw(Exception('pure virtual call'))
 
